@@ -35,6 +35,11 @@ class S:
         self.next_local_sid = 1
         self.closed = False
         self.need_preface = not client
+        self.initiated = False
+
+    def need_preface_sent(self):
+        """client role: initiate_connection() has not been called yet"""
+        return self.client and not self.initiated
 
 
 PUMP_PINGS = 150
@@ -65,7 +70,7 @@ class Spec:
         # PINGs whose answers have not been collected when a connection error follows (same chunk / next chunk): the answers
         # are owed all the same, in front of the GOAWAY; and a sized read + clear_outbound_data_buffer before further traffic
         self.menu = batches + split + ["api:%d" % i for i in range(len(API_PAYLOADS))] + ["req", "rxbad", "rxbad:same", "rxbad:next",
-                                                                                          "partialclear", "altsvc"]
+                                                                                          "partialclear", "altsvc", "pend+initiate"]
 
     def initial(self):
         out = []
@@ -74,6 +79,7 @@ class Spec:
         s = S(self.client)
         if self.client:
             H.handshake_client(s.conn)
+            s.initiated = True
         else:
             H.handshake_server(s.conn)
             s.need_preface = False
@@ -90,7 +96,7 @@ class Spec:
 
     def fingerprint(self, st):
         return fingerprint(st.conn, st.next_peer_sid, tuple(st.open_req),
-                           st.next_local_sid, st.closed, st.need_preface)
+                           st.next_local_sid, st.closed, st.need_preface, st.initiated)
 
     # ------------------------------------------------------------------
     def _frame(self, st, code):
@@ -151,6 +157,31 @@ class Spec:
                 st.next_local_sid += 2
                 st.open_req.append(sid)
             return Step("req-" + o.kind, viols)
+        if lab == "pend+initiate":
+            # two PINGs received and one sent while nothing has been collected, then (a client that has not done so yet)
+            # initiate_connection(): what was queued is still owed
+            if not self.client or not st.need_preface_sent():
+                return Step("pend+initiate-not-applicable", viols, prune=True)
+            try:
+                conn.receive_data(wire.settings([]).serialize() + wire.ping(PAYLOADS[2]).serialize() + wire.ping(PAYLOADS[3]).serialize())
+                conn.ping(b"12345678")
+            except Exception as e:  # noqa: BLE001
+                bad("valid-batch-rejected", "SETTINGS + two PINGs before initiate_connection rejected: %r" % e, exc=type(e).__name__)
+                st.closed = True
+                return Step("rx-raise", viols, prune=True)
+            o = H.call(conn, "initiate_connection")
+            st.initiated = True
+            i = o.raw.find(wire.PREFACE)
+            try:
+                frames = (wire.parse(o.raw[:i]) + wire.parse(o.raw[i + len(wire.PREFACE):])) if i >= 0 else wire.parse(o.raw)
+            except wire.WireError:
+                frames = []
+            acks = [f.f["opaque"] for f in frames if f.type == wire.PING and f.f["ack"]]
+            pings = [f.f["opaque"] for f in frames if f.type == wire.PING and not f.f["ack"]]
+            if o.kind != "ok" or i < 0 or acks != [PAYLOADS[2], PAYLOADS[3]] or pings != [b"12345678"]:
+                bad("ping-acks", "two PINGs received and one sent before initiate_connection: output %s" % o.brief(),
+                    n_expected=2, n_got=len(acks), same_multiset=False)
+            return Step("pend+initiate", viols)
         if lab == "altsvc":
             # an unrelated call - refused on a client, an ALTSVC frame on a server - after which PINGs are answered as before
             o = H.call(conn, "advertise_alternative_service", b'h2=":443"', origin=b"example.com")
